@@ -9,9 +9,11 @@ import (
 	"regexp"
 	"strings"
 	"time"
+	_ "time/tzdata"
 
 	webdav "github.com/emersion/go-webdav"
 	"github.com/emersion/go-webdav/caldav"
+	"github.com/emersion/go-webdav/carddav"
 	"github.com/emersion/go-webdav/internal"
 	"github.com/emersion/go-webdav/verifmc/engine"
 	"github.com/emersion/go-webdav/verifmc/harness"
@@ -175,7 +177,7 @@ func c16Eval(c c16Case) (class, detail string) {
 		var off int
 		fmt.Sscan(c.In, &unix)
 		fmt.Sscan(c.Aux, &off)
-		t := time.Unix(unix, 987654321).In(time.FixedZone("z", off))
+		t := time.Unix(unix, 987654321).In(c16Zone(c.Aux, off))
 		it := internal.Time(t)
 		b, err := it.MarshalText()
 		if err != nil {
@@ -190,6 +192,11 @@ func c16Eval(c c16Case) (class, detail string) {
 		}
 		if !strings.HasSuffix(string(b), " GMT") {
 			return "not-http-date", string(b)
+		}
+		// the same instant through every site at which a server writes a Last-Modified header from a value its
+		// backend handed over (GET, HEAD and PUT of the three handlers): the header must be an HTTP date for it
+		if cl, d := c16LastModifiedHeaders(t); cl != "" {
+			return cl, d
 		}
 	case "time/reject":
 		var got internal.Time
@@ -251,6 +258,68 @@ func c16Eval(c c16Case) (class, detail string) {
 	return "", ""
 }
 
+// c16Zone: a fixed offset in seconds, or the name of a zone of the time-zone database (daylight saving rules:
+// the offset depends on the instant), taken from the copy embedded in the Go distribution (time/tzdata), not
+// from the host
+func c16Zone(aux string, off int) *time.Location {
+	if aux != "" && (aux[0] < '0' || aux[0] > '9') && aux[0] != '-' {
+		loc, err := time.LoadLocation(aux)
+		if err != nil {
+			panic("c16: zone " + aux + ": " + err.Error())
+		}
+		return loc
+	}
+	return time.FixedZone("z", off)
+}
+
+func c16LastModifiedHeaders(t time.Time) (string, string) {
+	if t.Unix() < 0 || t.Year() > 9999 || t.Unix() == 0 {
+		return "", "" // the doubles treat the zero instant as "not set"
+	}
+	judge := func(site string, resp harness.Resp) (string, string) {
+		if resp.Panic != "" {
+			return "panic", site + ": " + resp.Panic
+		}
+		v := resp.Header.Get("Last-Modified")
+		if resp.Status/100 != 2 || v == "" {
+			return "", "" // no date announced: nothing to judge
+		}
+		got, err := time.Parse(http.TimeFormat, v)
+		if err != nil || got.Unix() != t.Unix() {
+			return "last-modified-header-altered", fmt.Sprintf("%s announces %q for the instant %v (%v)", site, v, t.UTC().Format(http.TimeFormat), t)
+		}
+		return "", ""
+	}
+	cb := &harness.CalBackend{Principal: "/u/", HomeSet: "/u/c/", Calendars: []caldav.Calendar{{Path: "/u/c/k/"}},
+		Objects:   []caldav.CalendarObject{{Path: "/u/c/k/o.ics", ETag: "e", ModTime: t, Data: harness.SampleCalendar("u1", "s")}},
+		PutResult: &caldav.CalendarObject{Path: "/u/c/k/o.ics", ETag: "e2", ModTime: t}}
+	ch := &caldav.Handler{Backend: cb}
+	ab := &harness.CardBackend{Principal: "/u/", HomeSet: "/u/c/", Books: []carddav.AddressBook{{Path: "/u/c/k/"}},
+		Objects:   []carddav.AddressObject{{Path: "/u/c/k/o.vcf", ETag: "e", ModTime: t, Card: harness.SampleCard("n")}},
+		PutResult: &carddav.AddressObject{Path: "/u/c/k/o.vcf", ETag: "e2", ModTime: t}}
+	ah := &carddav.Handler{Backend: ab}
+	fs := harness.NewMemFS()
+	fs.Add(webdav.FileInfo{Path: "/", IsDir: true}, "")
+	fs.Add(webdav.FileInfo{Path: "/f", Size: 4, ModTime: t, ETag: "e"}, "data")
+	wh := &webdav.Handler{FileSystem: fs}
+	for _, x := range []struct {
+		site string
+		h    http.Handler
+		q    harness.Req
+	}{
+		{"caldav GET", ch, harness.Req{Method: "GET", Path: "/u/c/k/o.ics"}}, {"caldav HEAD", ch, harness.Req{Method: "HEAD", Path: "/u/c/k/o.ics"}},
+		{"caldav PUT", ch, harness.Req{Method: "PUT", Path: "/u/c/k/o.ics", Body: calBody, Header: map[string]string{"Content-Type": "text/calendar"}}},
+		{"carddav GET", ah, harness.Req{Method: "GET", Path: "/u/c/k/o.vcf"}}, {"carddav HEAD", ah, harness.Req{Method: "HEAD", Path: "/u/c/k/o.vcf"}},
+		{"carddav PUT", ah, harness.Req{Method: "PUT", Path: "/u/c/k/o.vcf", Body: cardBody, Header: map[string]string{"Content-Type": "text/vcard"}}},
+		{"webdav GET", wh, harness.Req{Method: "GET", Path: "/f"}}, {"webdav HEAD", wh, harness.Req{Method: "HEAD", Path: "/f"}},
+	} {
+		if cl, d := judge(x.site, harness.Serve(x.h, x.q)); cl != "" {
+			return cl, d
+		}
+	}
+	return "", ""
+}
+
 func isQuotedLoose(s string) bool { return len(s) >= 2 && s[0] == '"' && s[len(s)-1] == '"' }
 
 // caldate roundtrip: caller's instant in any zone -> client XML (read independently) -> server -> backend
@@ -259,7 +328,7 @@ func c16CalDate(c c16Case) (string, string) {
 	var off int
 	fmt.Sscan(c.In, &unix)
 	fmt.Sscan(c.Aux, &off)
-	t := time.Unix(unix, 0).In(time.FixedZone("z", off))
+	t := time.Unix(unix, 0).In(c16Zone(c.Aux, off))
 	t2 := t.Add(90 * time.Minute)
 	cap := &harness.Capture{}
 	cl, err := caldav.NewClient(cap, "http://h/")
@@ -536,6 +605,13 @@ func c16Cases(full bool) []c16Case {
 	for _, u := range instants {
 		for _, z := range zones {
 			add("time", "roundtrip", fmt.Sprint(u), fmt.Sprint(z))
+		}
+	}
+	// zones with daylight saving rules, at instants within a day of a change of offset (2024)
+	for _, zn := range []string{"America/New_York", "Europe/Berlin", "Australia/Lord_Howe", "Asia/Kolkata"} {
+		for _, u := range []int64{1710054000, 1710054000 - 3600, 1710054000 + 7200, 1711846800, 1711846800 - 1800, 1729990800, 1729990800 + 3599, 1730613600, 1712417400, 1728142200} {
+			add("time", "roundtrip", fmt.Sprint(u), zn)
+			add("caldate", "roundtrip", fmt.Sprint(u), zn)
 		}
 	}
 	valid := "Sun, 06 Nov 1994 08:49:37 GMT"
